@@ -76,8 +76,20 @@ AckUseful == /\ Ackable # {}
              /\ \E p \in {Pick(Ackable)} : \E k \in {Pick(GoodAckHeights(p))} : \E s \in {Pick(Signers)} :
                    Ack(p.src, p, WrittenCode(p), "none", "none", k, "ok", s)
 
+(* a perfectly relayable message (verified height, genuine proof) in which exactly one packet field is altered *)
+ForgeAlts == Alts \cap {"amt", "sender", "seq"}
+RecvForged == /\ Receivable # {} /\ ForgeAlts # {}
+              /\ \E p \in {Pick(Receivable)} : \E k \in {Pick(GoodRecvHeights(p))} : \E alt \in {Pick(ForgeAlts)} :
+                    Recv(p.dst, p, alt, k, "ok", "relayer")
+AckForged ==  /\ Ackable # {} /\ ForgeAlts # {}
+              /\ \E p \in {Pick(Ackable)} : \E k \in {Pick(GoodAckHeights(p))} : \E alt \in {Pick(ForgeAlts \ {"seq"})} : \E s \in {Pick(Signers)} :
+                    Ack(p.src, p, WrittenCode(p), alt, "none", k, "ok", s)
+AckForgedCode == /\ Ackable # {} /\ "ackcode" \in AckAlts
+              /\ \E p \in {Pick(Ackable)} : \E k \in {Pick(GoodAckHeights(p))} : \E s \in {Pick(Signers)} :
+                    Ack(p.src, p, AckCode(WrittenCode(p), "ackcode"), "none", "ackcode", k, "ok", s)
+
 Useful  == CommitUseful \/ UpdateUseful \/ RecvUseful \/ AckUseful \/ SendR \/ SendBackR
-Hostile == SendR \/ CommitR \/ UpdateR \/ RecvGood \/ RecvR \/ RecvDup \/ AckGood \/ AckR
+Hostile == SendR \/ CommitR \/ UpdateR \/ RecvGood \/ RecvR \/ RecvDup \/ AckGood \/ AckR \/ RecvForged \/ AckForged \/ AckForgedCode
 
 MInit == Init /\ hist = << >>
 
